@@ -16,6 +16,8 @@ import (
 	"google.golang.org/protobuf/reflect/protoreflect"
 	"google.golang.org/protobuf/reflect/protoregistry"
 	"google.golang.org/protobuf/types/known/fieldmaskpb"
+
+	"github.com/smart-core-os/sc-golang/pkg/router"
 )
 
 // C14 — trait servers give read-your-writes through the full stack (DESIGN.md §5 C14).
@@ -235,11 +237,28 @@ func stackRun(w *World) {
 	// a stalled reader must not be able to make an RPC hang: let send timeouts (if any server has them) fire
 	w.IdleAdvance, w.IdleAdvanceN = 6*time.Second, 30
 	// the stack
-	server := tr.server()
-	inner, _ := tr.entry.Wrap(server)
-	routerSrv, r := tr.entry.NewRouter()
 	const dev = "dev1"
-	r.Add(dev, inner)
+	// lazy: the device is not registered up front; the router's factory builds it (a fresh server per call) on first
+	// use, and the first uses - an Update and a Pull from two clients - overlap
+	lazy := t.Flag(1, 5)
+	var routerSrv any
+	if lazy {
+		nfac := 0
+		routerSrv, _ = tr.entry.NewRouter(router.WithFactory(func(name string) (any, error) {
+			nfac++
+			w.Fault("factory-call")
+			// the handler goroutine is a task while it is in here (parked once), so that two first uses can both be inside
+			// the factory before either registers its device
+			w.Adopt(fmt.Sprintf("factory%d", nfac), true).Done()
+			inner, _ := tr.entry.Wrap(tr.server())
+			return inner, nil
+		}))
+	} else {
+		inner, _ := tr.entry.Wrap(tr.server())
+		var r router.Router
+		routerSrv, r = tr.entry.NewRouter()
+		r.Add(dev, inner)
+	}
 	_, conn := tr.entry.Wrap(routerSrv)
 	svc := tr.entry.Desc.ServiceName
 	full := func(m protoreflect.MethodDescriptor) string { return "/" + svc + "/" + string(m.Name()) }
@@ -312,6 +331,28 @@ func stackRun(w *World) {
 	nops := 1 + t.Choose(6)
 	if t.Flag(1, 4) {
 		nops = 8 + t.Choose(8) // long enough to fill every hand-off between a stalled reader and the resource
+	}
+	if lazy {
+		// first uses, concurrently: client A updates, client B opens a stream (its reader keeps up)
+		w.Go("first-update", false, func(task *Task) {
+			req := newMsg(tr.update.Input())
+			setName(req, dev)
+			val := newMsg(tr.resource)
+			fillMessage(val.ProtoReflect(), p, 2)
+			req.ProtoReflect().Set(tr.updField, protoreflect.ValueOfMessage(val.ProtoReflect()))
+			_ = conn.Invoke(context.Background(), full(tr.update), req, newMsg(tr.update.Output()))
+		})
+		w.Go("first-pull", false, func(task *Task) {
+			streams = append(streams, openPull(false, false))
+		})
+		w.Run()
+		if w.truncated {
+			return
+		}
+		if w.Deadlocked || len(w.Unfinished(false)) > 0 {
+			bad("rpc-stuck", "a first use of a lazily created device did not return: "+strings.Join(w.Unfinished(true), ","))
+			return
+		}
 	}
 	w.Go("client", false, func(task *Task) {
 		task.NoPark(true)
